@@ -526,7 +526,7 @@ func init() {
 		scs := make([]kernel.PromScenario, *n)
 		res := make([][]rec.Ev, *n)
 		for i := range scs {
-			scs[i] = kernel.GenProm(r)
+			scs[i] = kernel.GenPromAt(r, i)
 		}
 		sem := make(chan struct{}, *par)
 		var wg sync.WaitGroup
